@@ -103,7 +103,7 @@ Print Assumptions C08_order_independent.
    redefinitions, any bodies, in any order - gives, evaluation by evaluation, S's outcome (equal where S is
    binding; never a value where S has none), from the empty state.  No guard: this is the statement that was
    refuted for the unrepaired code (C08_refinement_needs_guard_refuted, removed with repo_fixes/C08-3). *)
-Theorem C08_history_refines : forall n ops, Forall2 osim (runS n sinit ops) (runM n minit ops).
+Theorem C08_history_refines : forall n ops, no_fmak ops = true -> Forall2 osim (runS n sinit ops) (runM n minit ops).
 Proof. exact history_refines. Qed.
 Print Assumptions C08_history_refines.
 
@@ -143,11 +143,11 @@ Print Assumptions C08_evaluation_exact.
    (oex: equal whenever S did not run out of fuel; never a value where S has none).  In particular there is an
    assignment of lookup times under which S and M agree on everything - no guard, no exempted outcome.  With
    the empty oracle runL is runS. *)
-Theorem C08_history_exact : forall n ops,
+Theorem C08_history_exact : forall n ops, no_fmak ops = true ->
   Forall2 oex (runL n sinit ops (pols_run n minit ops)) (runM n minit ops).
 Proof. exact history_exact. Qed.
 Print Assumptions C08_history_exact.
-Theorem C08_history_exact_exists : forall n ops, exists pols, Forall2 oex (runL n sinit ops pols) (runM n minit ops).
+Theorem C08_history_exact_exists : forall n ops, no_fmak ops = true -> exists pols, Forall2 oex (runL n sinit ops pols) (runM n minit ops).
 Proof. exact history_exact_exists. Qed.
 Print Assumptions C08_history_exact_exists.
 Theorem C08_oracle_empty_is_spec : forall n ops s, runL n s ops [] = runS n s ops.
@@ -207,6 +207,30 @@ Theorem C08_closure_replaced :
     [(Val (VInt 21%Z), []); (Val VNil, []); (Val (VList [VInt 2%Z; VInt 3%Z]), []); (Val (VInt 21%Z), [])].
 Proof. exact closure_replaced. Qed.
 Print Assumptions C08_closure_replaced.
+
+(* (10c) fmakunbound as an operation of the histories (OFmak; round-4 seed).  (8) and (9b) are stated for the
+   histories without it (`no_fmak`): slip's fmakunbound removes the creator of the name but neither resets the
+   registered Lambda nor reaches the compiled callers - KNOWN FINDINGS C08-fmakunbound-compiled-caller and
+   C08-fmakunbound-orphaned-callers; on the faithful model the unguarded refinement is false: *)
+Theorem C08_fmakunbound_needs_guard_refuted :
+  ~ (forall n ops, Forall2 osim (runS n sinit ops) (runM n minit ops)).
+Proof. exact fmakunbound_needs_guard_refuted. Qed.
+Print Assumptions C08_fmakunbound_needs_guard_refuted.
+(* the witnesses, and the shape that IS inside the finer guard used by the correspondence (`fguards`: the name is
+   redefined at once, by the first form of the next code object, with a body that does not mention it), where M
+   gives S's answer: the old caller sees the new definition (2).  That M = S on every history inside `fguards`
+   is evaluated per run (self-check code 3), not proved. *)
+Theorem C08_fmakunbound_witness :
+  runM 50 minit fmak_ops1 = [(Val (VSym "h"), []); (Val (VInt 1%Z), [])] /\
+  runS 50 sinit fmak_ops1 = [(Val (VSym "h"), []); (Err EUndefined, [])] /\
+  runM 50 minit fmak_ops2 = [(Val (VSym "h"), []); (Val (VList [VInt 1%Z; VInt 2%Z]), [])] /\
+  runS 50 sinit fmak_ops2 = [(Val (VSym "h"), []); (Val (VList [VInt 2%Z; VInt 2%Z]), [])] /\
+  runM 50 minit fmak_ops3 = [(Val (VSym "h"), []); (Val (VInt 2%Z), [])] /\
+  runS 50 sinit fmak_ops3 = [(Val (VSym "h"), []); (Val (VInt 2%Z), [])] /\
+  fguards 50 minit true None fmak_ops1 = [true; false] /\ fguards 50 minit true None fmak_ops2 = [true; false] /\
+  fguards 50 minit true None fmak_ops3 = [true; true].
+Proof. exact fmak_witness. Qed.
+Print Assumptions C08_fmakunbound_witness.
 
 (* (11) The property for whole programs.  A program = a block of function definitions es (distinct names, `defs_are
    es ds`) followed by main forms (at least one; none of them a definition); `prog cid es mains cmp k` = read it
